@@ -98,8 +98,8 @@ def with_lengths(raw_path, f, an, lens):
     return merge_fixed(out)
 
 
-def run_schema(ctx, rule, only_crates=None):
-    p = ctx.p
+def run_schema(ctx, rule, only_crates=None, cfg="default"):
+    p = ctx.prog(cfg)
     an = intervals.Analysis(p)
     ps = pairs(p, only_crates)
     for ty, w, r in ps:
@@ -125,7 +125,7 @@ def run_schema(ctx, rule, only_crates=None):
             else:
                 how = "writer emits %s but reader consumes %s" % (
                     " | ".join(_show(x) for x in sorted(wset)), " | ".join(_show(x) for x in sorted(rset)))
-        ctx.ob(rule, "schema:%s" % short, ok, how, w, w.at)
+        ctx.ob(rule, "schema:%s" % short, ok, how, w, w.at, cfg=cfg)
     return ps
 
 
@@ -293,6 +293,65 @@ def r2_ctor_subset_decoder(ctx):
            "Context::new accepts %s, decoder %s" % (panics._fmt(acc), panics._fmt(got)), d, agg[0]["sp"]["at"])
 
 
+def r2b_relational(ctx, rule="R2", report=("ctor-accepts-decoder-rejects", "decoder-accepts-ctor-rejects")):
+    """cell decomposition of the decoded integers by the constants in the guards of decoder and
+    constructor; on every representative point the two verdicts must agree."""
+    from .. import guardcells
+    p = ctx.p
+    an = intervals.Analysis(p)
+    for dec_key, ctor_key, names in CTOR_PAIRS:
+        d, c = p.fn(dec_key), p.fn(ctor_key)
+        cs = d.calls_to(ctor_key)
+        if not cs:
+            raise AnchorLost("%s does not call %s" % (dec_key, ctor_key))
+        bi, t = cs[0]
+        offset = 0
+        if ctor_key.endswith("::with_partitions"):
+            # the range checks live in PartitionOptions::new(num_partitions, hash_rate), called with
+            # the same two arguments
+            c = p.fn("winter_air::options::PartitionOptions::new")
+            offset = 1
+        dv = guardcells.decoded_vars(an, d, bi)
+        # only variables that flow into the integer arguments of this call
+        argl = set()
+        for a in t["a"][offset:]:
+            if op_local(a) is not None and intervals.type_range(d.local_ty(op_local(a))) is None:
+                continue
+            argl |= d.slice_of_operand(a, at=(bi, d.INF))["locals"]
+        dv = {l: r for l, r in dv.items() if l in argl}
+        if len(dv) < 2:
+            raise AnchorLost("%s: decoded integer variables feeding %s not identified (%d)" % (dec_key, ctor_key, len(dv)))
+        # constants of the constructor's guards, mapped onto the decoder variables by position
+        an.compute_param_env([], set())
+        cconst = guardcells.guard_constants(an, c, list(range(1, c.argc + 1)))
+        extra = {}
+        for i, a in enumerate(t["a"][offset:]):
+            sl = d.slice_of_operand(a, at=(bi, d.INF))
+            for l in dv:
+                if l in sl["locals"]:
+                    extra.setdefault(l, set()).update(cconst.get(i + 1, ()))
+        pair = guardcells.Pair(an, d, c, bi, sorted(dv), dv, arg_offset=offset)
+        n = 0
+        bad = {report[0]: None, report[1]: None}
+        for assign, vd, vc, args in pair.sweep(extra, pair_distance=None if ctx.tier == "thorough" else 2):
+            n += 1
+            if vc == "accept" and vd == "reject" and bad[report[0]] is None:
+                bad[report[0]] = assign
+            if vd == "accept" and vc == "reject" and bad[report[1]] is None:
+                bad[report[1]] = assign
+        if n < 10:
+            raise AnchorLost("%s vs %s: no common accepted point found to sweep from (%d points)" % (dec_key, ctor_key, n))
+        short = ctor_key.split("::")[-2] + "::" + ctor_key.split("::")[-1]
+        for kind, w in bad.items():
+            wtxt = ", ".join("%s=%d" % (d.local_name(l), v) for l, v in sorted(w.items())) if w else ""
+            ctx.ob(rule, "%s:%s" % (kind, short), w is None,
+                   "decoder and %s agree on all %d representative points of the guard cells (singles and pairs around a common accepted point)" % (short, n)
+                   if w is None else ("%s accepts but the decoder rejects the decoded values %s: an accepted value does not survive a round trip" % (short, wtxt)
+                                      if kind == report[0] else
+                                      "the decoder lets the decoded values %s through to %s, which panics on them" % (wtxt, short)),
+                   d, t["sp"]["at"])
+
+
 # -- R3: narrowing casts in writers ----------------------------------------------------------------------
 
 WRITER_CAST_REASONS = {
@@ -340,6 +399,11 @@ def r3_writer_casts(ctx):
                                "`%s as %s` may truncate: value in %s" % (names, s["rv"][3], panics._fmt(iv)), w, s["sp"]["at"])
 
 
+def thorough(ctx):
+    ctx.guard("R1", lambda c: run_schema(c, "R1", cfg="nostd"))
+    ctx.guard("R1", lambda c: run_schema(c, "R1", cfg="concurrent"))
+
+
 def run(ctx):
     ctx.rule("R1", "writer/reader schema agreement (ordered byte-level I/O events along every success path, loops collapsed, byte widths compared) for every (Serializable, Deserializable) pair; length prefixes are the length of / size the following blob; enum tags = discriminants", 45)
     ctx.rule("R2", "constructor subset of decoder: every integer range a public constructor accepts is let through by read_from", 9)
@@ -348,5 +412,6 @@ def run(ctx):
     ctx.guard("R1", r1_prefixes)
     ctx.guard("R1", r1_enums)
     ctx.guard("R2", r2_ctor_subset_decoder)
+    ctx.guard("R2", r2b_relational)
     ctx.guard("R3", r3_writer_casts)
     ctx.assume("equality of decoded values for interior inputs and 'same verdict after decode' are behavioural and not decided")
